@@ -858,4 +858,21 @@ def steps_programs_c17():
                     out.append({"name": "%s/max_iters=%d/%s/%s" % (fn, mi, rand, "+".join(sorted(fault)) if fault else "clean"),
                                 "program": {"property": "C17", "run_seed": 0, "rng0": 3, "config": {"steps": [fn, mi]},
                                             "mode": "explicit", "steps": steps}})
+    # every small size (block size = min(100, n): 1 x 1 and 2 x 2 operators have degenerate sample statistics), a size above
+    # the block size, off-diagonals, tolerances that are / are not reached
+    for n in (1, 2, 3, 101):
+        An = {"k": "ann", "name": "PSD", "of": {"k": "probe", "inner": {"k": "generic", "n": n, "dtype": "f8", "seed": 32, "sym": "psd"},
+                                                 "pid": 0}}
+        for mi in (0, 1, 2, 5):
+            for rand in ("normal", "rademacher"):
+                for tol in (0.0011, 50.0):
+                    for fn, extra in (("hutch", {"k": 0}), ("hutch", {"k": -(n - 1)}), ("trace_hutch", {})):
+                        c = {"op": "call", "fn": fn, "args": dict({"A": {"slot": "A0"}, "tol": tol, "max_iters": mi, "rand": rand,
+                                                                    "key": 5}, **extra)}
+                        steps = [{"op": "make", "slot": "A0", "recipe": An}, c]
+                        for j, s in enumerate(steps):
+                            s["id"] = j
+                        out.append({"name": "%s/n=%d/max_iters=%d/%s/tol=%g/k=%s" % (fn, n, mi, rand, tol, extra.get("k", "-")),
+                                    "program": {"property": "C17", "run_seed": 0, "rng0": 3, "config": {"steps": [fn, mi, n]},
+                                                "mode": "explicit", "steps": steps}})
     return out
